@@ -6,9 +6,9 @@ open GoHeader GoHeader.Sess
 def behOf? (s : String) : Option Beh :=
   match s.splitOn ":" with
   | ["honest"] => some .honest | ["slow"] => some .honest | ["dup"] => some .dup | ["reorder"] => some .reorder | ["gapped"] => some .gapped
-  | ["wrongchain"] => some .wrongchain | ["oversized"] => some .oversized | ["status"] => some .status
+  | ["wrongchain"] | ["wrongchaincase"] => some .wrongchain | ["oversized"] => some .oversized | ["status"] => some .status
   | ["garbage"] => some .garbage | ["notfound"] => some .notfound | ["empty"] => some .empty
-  | ["reset"] => some .reset | ["hang"] => some .hang
+  | ["reset"] => some .reset | ["hang"] | ["late"] => some .hang
   | ["prefix", k] => k.toNat?.map .pfx
   | ["partialreset", k] => k.toNat?.map .pfx      -- what the client got before the reset = a prefix answer
   | ["shift", d] => d.toNat?.map .shift
